@@ -240,6 +240,39 @@ Definition check_C14 (pre : State) (o : Op) (c : Z) (post : State) : list Z :=
            | None => true
            end) (assets post))
        else []
+     | OUpdateAlliance m =>
+       if c =? R_OK then
+         match kget (assets pre) [m_denom m], kget (assets post) [m_denom m] with
+         | Some a, Some b =>
+           (* not retroactive: a decay schedule configured where none was running starts its
+              clock now; a running schedule keeps its clock *)
+           clause 3 (if (negb (a_rate b =? a_rate a) || negb (a_interval b =? a_interval a))
+                        && ((a_rate a =? ONE) || (a_interval a =? 0))
+                     then a_last b =? now pre else a_last b =? a_last a)
+         | _, _ => []
+         end
+       else []
+     | _ => []
+     end
+  (* a weight change is preceded by a settlement: every validator record whose staking validator
+     exists gets a snapshot of the old weight at this height (when all of them exist: the walk
+     stops at the first missing one) *)
+  ++ match o with
+     | OUpdateAlliance _ | OEndBlock =>
+       if c =? R_OK then
+         clause 4 (forallb (fun kv =>
+           match kget (assets post) (fst kv) with
+           | Some b =>
+             (a_weight b =? a_weight (snd kv))
+             || negb (forallb (fun kw => match fst kw with [v] => kmem (svals pre) [v] | _ => true end) (valinfos pre))
+             || forallb (fun kw => match fst kw with
+                                   | [v] => match kget (snapshots post) [a_denom (snd kv); v; height pre] with
+                                            | Some sn => sn_weight sn =? a_weight (snd kv)
+                                            | None => false end
+                                   | _ => true end) (valinfos pre)
+           | None => true
+           end) (assets pre))
+       else []
      | _ => []
      end.
 
@@ -287,12 +320,42 @@ Definition check_C07 (pre : State) (o : Op) (c : Z) (post : State) : list Z :=
   | _ => []
   end.
 
+(* the share form of the law: the callback removes exactly the fraction f (18-digit product,
+   as the code rounds it) of the slashed validator's validator shares in every asset, from the
+   validator's record and from the asset's total alike, and touches nobody else's validator
+   shares; a position is worth  T * (s_w / S) * (shares / delegator shares of w):  with S' = S - f*s_v
+   a position on v is scaled by (1-f)*g and everybody else by g = S / S'  (Proofs/BondedSlash.v) *)
+Definition vinfo_or_empty (s : State) (v : Z) : ValInfo :=
+  match kget (valinfos s) [v] with Some vi => vi | None => empty_valinfo end.
+Definition vshares_of (s : State) (w d : Z) : Z := camount (vi_vshares (vinfo_or_empty s w)) d.
+(* the slash of pending redelegations walks the per-source index *)
+Definition has_redel_from (s : State) (v : Z) : bool :=
+  existsb (fun kv => match fst kv with v' :: _ => v' =? v | [] => false end) (redelidx s).
+Definition val_ids (pre post : State) : list Z :=
+  nodup_z (flat_map (fun kv => match fst kv with [w] => [w] | _ => [] end) (valinfos pre ++ valinfos post)).
 Definition check_C06 (pre : State) (o : Op) (c : Z) (post : State) : list Z :=
   match o with
   | OHookSlash v f =>
     if c =? R_OK then
       clause 1 (forallb (fun kv => staked_total post (a_denom (snd kv)) =? a_tokens (snd kv)) (assets pre))
       ++ clause 2 (forallb (fun d => (d =? BOND_DENOM) || (slack post d =? slack pre d)) (denoms_of pre))
+      (* proportional: exactly the fraction f of the validator's shares goes, in every asset *)
+      ++ clause 3 (forallb (fun kv => let d := a_denom (snd kv) in
+                      let cut := dmul (vshares_of pre v d) f in
+                      (vshares_of post v d =? vshares_of pre v d - cut)
+                      && (match kget (assets post) (fst kv) with
+                          | Some b => a_vshares b =? a_vshares (snd kv) - cut
+                          | None => false end)) (assets pre))
+      (* targeted: nobody else's validator shares move; delegator shares move only through the
+         slash of pending redelegations out of v (C07 / C08) *)
+      ++ clause 4 (forallb (fun w => forallb (fun kv => let d := a_denom (snd kv) in
+                      ((w =? v) || (vshares_of post w d =? vshares_of pre w d))
+                      && (has_redel_from pre v || (dshares_of post w d =? dshares_of pre w d)))
+                      (assets pre)) (val_ids pre post))
+      ++ clause 5 (has_redel_from pre v ||
+                   forallb (fun kv => match kget (delegations post) (fst kv) with
+                                      | Some d' => d_shares d' =? d_shares (snd kv)
+                                      | None => false end) (delegations pre))
     else []
   | _ => []
   end.
@@ -328,6 +391,16 @@ Definition check_C09 (pre : State) (o : Op) (c : Z) (post : State) : list Z :=
                    ((p_last p =? ZERO_TIME) || (p_last p <=? p_last (params post))))
       ++ clause 4 ((p_last p =? ZERO_TIME) || (p_last (params post) =? p_last p) || (p_last (params post) =? t)
                    || ((p_interval p =? 0) || ((p_last (params post) - p_last p) mod p_interval p =? 0)))
+      (* never retroactive: while nothing is chargeable the clock follows the block time, so
+         stake deposited later is not charged for the idle intervals; when something was charged
+         the clock moves by exactly the n whole intervals charged *)
+      ++ clause 6 (negb (fires && forallb (fun kv => let a := snd kv in
+                            negb ((0 <? a_tokens a) && (0 <? a_take a) && rewards_started a t)) (assets pre))
+                   || (p_last (params post) =? t))
+      ++ clause 7 (negb (fires && existsb (fun kv => match kget (assets post) (fst kv) with
+                                                     | Some b => a_tokens b <? a_tokens (snd kv)
+                                                     | None => false end) (assets pre))
+                   || (p_last (params post) =? p_last p + p_interval p * n))
       (* a rate below one never drives a total to zero *)
       ++ clause 5 (forallb (fun kv => match kget (assets post) (fst kv) with
                                       | Some b => negb (0 <? a_tokens (snd kv)) || (0 <? a_tokens b)
@@ -390,11 +463,29 @@ Definition check_C13 (pre : State) (o : Op) (c : Z) (post : State) : list Z :=
                    | None => true end)
     else []
   | ODelegate del v d a =>
-    if (c =? R_OK) && negb (kmem (delegations pre) [del; v; d]) then
-      (* a new position starts with nothing claimable *)
-      clause 3 (match kget (delegations post) [del; v; d] with
+    if c =? R_OK then
+      if negb (kmem (delegations pre) [del; v; d]) then
+        (* a new position starts with nothing claimable *)
+        clause 3 (match kget (delegations post) [del; v; d] with
+                  | Some dl => cis_zero (claimable post [del; v; d] dl)
+                  | None => true end)
+      else
+        (* a position that grows was settled first: what accrued before is not payable on the new stake *)
+        clause 4 (match kget (delegations post) [del; v; d] with
+                  | Some dl => cis_zero (claimable post [del; v; d] dl)
+                  | None => true end)
+    else []
+  | OUndelegate del v d _ =>
+    if c =? R_OK then
+      clause 5 (match kget (delegations post) [del; v; d] with
                 | Some dl => cis_zero (claimable post [del; v; d] dl)
                 | None => true end)
+    else []
+  | ORedelegate del src dst d _ =>
+    if c =? R_OK then
+      clause 6 (forallb (fun k => match kget (delegations post) k with
+                                  | Some dl => cis_zero (claimable post k dl)
+                                  | None => true end) [[del; src; d]; [del; dst; d]])
     else []
   | _ => []
   end.
@@ -417,8 +508,6 @@ Definition check_C10 (pre : State) (o : Op) (c : Z) (post : State) : list Z :=
 (* What a delegator can do in state [s], evaluated on a discarded copy of the state with an
    environment in which x/distribution has nothing pending for the validator ([v], no coins).
    The result is the model's error code of the message, 0 when it succeeds. *)
-Definition vinfo_or_empty (s : State) (v : Z) : ValInfo :=
-  match kget (valinfos s) [v] with Some vi => vi | None => empty_valinfo end.
 (* the reported balance of a position (QueryAllianceDelegation.Balance) *)
 Definition reported_balance (s : State) (k : Key) : Z :=
   match k with
